@@ -68,6 +68,8 @@ func NewShared() *Shared {
 		g.StartPath(0, -8, -8)
 		g.AbsHLineTo(8)
 		g.AbsArcTo(8, 8, 0, false, true, -8, 8)
+		g.RelArcTo(5, 3, 0.125, true, false, 4, -3)
+		g.AbsArcTo(4, 6, 0.3, false, false, -8, -8)
 		g.ClosePathEndPath()
 		b, _ := e.Bytes()
 		s.Graphics = append(s.Graphics, append([]byte(nil), b...))
